@@ -24,6 +24,7 @@ Section R.
     | NPrior _ | NConst _ => True
     | NTuple ms => Forall (fun m => is_leaf (snd (snd m)) = true) ms /\ NoDup (map (member_pos V) ms)
     | NBin _ ln rn l r => wf l /\ wf r /\ (ln = rn -> l = r)
+    | NUn _ _ c => wf c
     | NModel _ _ attrs =>
         (fix go (a : list (string * node)) : Prop :=
            match a with [] => True | (_, c) :: a' => wf c /\ go a' end) attrs
@@ -31,6 +32,57 @@ Section R.
         (fix go (a : list (string * node)) : Prop :=
            match a with [] => True | (_, c) :: a' => (wf c /\ is_tuple c = false) /\ go a' end) attrs
     end.
+
+  (* every unary form has a class for the configuration lookup (ModifiedPrior.cls = self.prior.cls exists only when
+     the chain of unary forms ends in a CompoundPrior): the guard of the theorems about mapper_from_prior_means;
+     without it the code raises AttributeError (finding C12 modified-prior-cls, Witness.means_unary_over_prior_refuted) *)
+  Fixpoint cls_ok (n : node) : Prop :=
+    match n with
+    | NPrior _ | NConst _ | NTuple _ => True
+    | NBin _ _ _ l r => cls_ok l /\ cls_ok r
+    | NUn _ _ c => un_has_cls V c || modified_prior_cls_falls_back = true /\ cls_ok c
+    | NModel _ _ attrs | NColl attrs =>
+        (fix go (a : list (string * node)) : Prop :=
+           match a with [] => True | (_, c) :: a' => cls_ok c /\ go a' end) attrs
+    end.
+
+  (* once ModifiedPrior.cls falls back to float the guard holds for every model *)
+  Lemma cls_ok_repaired : modified_prior_cls_falls_back = true -> forall n, cls_ok n.
+  Proof.
+    intro R. induction n as [p|v|ms _|o ln rn l r IHl IHr|uo unm uc IHc|cls ctor attrs IH|attrs IH] using node_ind'; cbn [cls_ok]; auto.
+    - split; [rewrite R; apply orb_true_r|exact IHc].
+    - induction IH as [|[k c] a Hc _ IHa]; simpl; auto.
+    - induction IH as [|[k c] a Hc _ IHa]; simpl; auto.
+  Qed.
+
+  Lemma no_bare_un : modified_prior_cls_falls_back = false -> forall n, cls_ok n -> has_bare_un V n = false.
+  Proof.
+    intro R. induction n as [p|v|ms _|o ln rn l r IHl IHr|uo unm uc IHc|cls ctor attrs IH|attrs IH] using node_ind';
+      cbn [cls_ok has_bare_un]; intro C; try reflexivity.
+    - destruct C as [Cl Cr]. rewrite (IHl Cl), (IHr Cr). reflexivity.
+    - destruct C as [Cu Cc]. rewrite R, orb_false_r in Cu. rewrite (IHc Cc).
+      destruct uc; try discriminate Cu; reflexivity.
+    - induction IH as [|[k c] a Hc _ IHa]; [reflexivity|]. destruct C as [Cc Ca]. simpl in Hc.
+      rewrite (Hc Cc). simpl. exact (IHa Ca).
+    - induction IH as [|[k c] a Hc _ IHa]; [reflexivity|]. destruct C as [Cc Ca]. simpl in Hc.
+      rewrite (Hc Cc). simpl. exact (IHa Ca).
+  Qed.
+
+  Lemma coll_own_ok (n : node) : cls_ok n -> coll_own V n = Some "ModelInstance".
+  Proof.
+    intro C. unfold coll_own. destruct modified_prior_cls_falls_back eqn:R; [reflexivity|].
+    rewrite (no_bare_un R n C). reflexivity.
+  Qed.
+
+  Lemma cls_ok_attrs attrs : (fix go (a : list (string * node)) : Prop :=
+           match a with [] => True | (_, c) :: a' => cls_ok c /\ go a' end) attrs <-> Forall (fun kc => cls_ok (snd kc)) attrs.
+  Proof.
+    induction attrs as [|[k c] a IH]; simpl.
+    - split; intro; constructor.
+    - split; intro H.
+      + constructor; [exact (proj1 H)|apply IH; exact (proj2 H)].
+      + inversion H; subst. split; [assumption|apply IH; assumption].
+  Qed.
 
   Lemma wf_model cls ctor attrs : wf (NModel cls ctor attrs) <-> Forall (fun kc => wf (snd kc)) attrs.
   Proof.
@@ -83,6 +135,9 @@ Section R.
     - rewrite (Wn E). unfold prefix_paths. rewrite map_map. simpl. tauto.
     - rewrite map_app. unfold prefix_paths. rewrite !map_map. simpl. rewrite in_app_iff. tauto.
   Qed.
+
+  Lemma prior_ids_un o nm c : prior_ids (NUn o nm c) = prior_ids c.
+  Proof. unfold prior_ids. cbn [walk]. unfold prefix_paths. rewrite map_map. reflexivity. Qed.
 
   Lemma prior_ids_cons k c a (q : nat) :
     In q (map snd (walk_attrs ((k, c) :: a))) <-> In q (prior_ids c) \/ In q (map snd (walk_attrs a)).
@@ -154,7 +209,7 @@ Section R.
     Proof.
       induction 1 as [|[k [i c]] ms Hc Hms IH]; intros ps E; simpl in E.
       - inversion E; subst. reflexivity.
-      - destruct c as [p|v|?|? ? ? ? ?|? ? ?|?]; simpl in Hc; try discriminate.
+      - destruct c as [p|v|?|? ? ? ? ?|? ? ?|? ? ?|?]; simpl in Hc; try discriminate.
         + destruct (sigma p) as [p'|] eqn:Ep; [|discriminate].
           destruct (tuple_priors V sigma ms) as [r|] eqn:Er; [|discriminate].
           inversion E; subst. unfold walk_members in *. simpl. rewrite (IH r eq_refl).
@@ -181,7 +236,7 @@ Section R.
        replaced by the prior given for it ---------- *)
     Lemma rebuild_walk : forall n, wf n -> forall n', rebuild V sigma n = Some n' -> walk V n' = ren_walk (walk V n).
     Proof.
-      induction n as [p|v|ms _|o ln rn l r IHl IHr|cls ctor attrs IH|attrs IH] using node_ind'; intros W n' E.
+      induction n as [p|v|ms _|o ln rn l r IHl IHr|uo unm uc IHc|cls ctor attrs IH|attrs IH] using node_ind'; intros W n' E.
       - simpl in E. destruct (sigma p) as [p'|] eqn:Ep; [|discriminate]. inversion E; subst.
         simpl. unfold sd. rewrite Ep. reflexivity.
       - inversion E; subst. reflexivity.
@@ -198,6 +253,8 @@ Section R.
         destruct (String.eqb ln rn).
         + rewrite ren_walk_prefix. reflexivity.
         + rewrite ren_walk_app, !ren_walk_prefix. reflexivity.
+      - cbn [rebuild] in E. destruct (rebuild V sigma uc) as [c'|] eqn:Ec; [|discriminate].
+        inversion E; subst. cbn [walk]. rewrite (IHc W _ eq_refl). rewrite ren_walk_prefix. reflexivity.
       - rewrite rebuild_model in E. destruct (rebuild_attrs attrs) as [a'|] eqn:Ea; [|discriminate].
         inversion E; subst. rewrite !walk_model. apply wf_model in W.
         clear E. revert a' Ea. induction attrs as [|[k c] a IHa]; intros a' Ea; simpl in Ea.
@@ -231,7 +288,7 @@ Section R.
       assert (T' : forall q, In q (map snd (walk_members ms)) -> sigma q <> None).
       { intros q Hq. apply T. unfold walk_members in *. simpl. rewrite map_app. apply in_or_app. right. exact Hq. }
       destruct (IH T') as [ps Eps].
-      destruct c as [p|v|?|? ? ? ? ?|? ? ?|?]; simpl in Hc; try discriminate.
+      destruct c as [p|v|?|? ? ? ? ?|? ? ?|? ? ?|?]; simpl in Hc; try discriminate.
       - destruct (sigma p) as [p'|] eqn:Ep.
         + rewrite Eps. eexists; reflexivity.
         + exfalso. apply (T p); [|exact Ep]. unfold walk_members. simpl. left. reflexivity.
@@ -241,7 +298,7 @@ Section R.
     Lemma rebuild_total : forall n, wf n -> (forall q, In q (prior_ids n) -> sigma q <> None) ->
       exists n', rebuild V sigma n = Some n'.
     Proof.
-      induction n as [p|v|ms _|o ln rn l r IHl IHr|cls ctor attrs IH|attrs IH] using node_ind'; intros W T.
+      induction n as [p|v|ms _|o ln rn l r IHl IHr|uo unm uc IHc|cls ctor attrs IH|attrs IH] using node_ind'; intros W T.
       - simpl. destruct (sigma p) as [p'|] eqn:Ep; [eexists; reflexivity|].
         exfalso. apply (T p); [left; reflexivity|exact Ep].
       - eexists; reflexivity.
@@ -253,6 +310,8 @@ Section R.
         destruct (IHl Wl) as [l' El]; [intros q Hq; apply T; apply (prior_ids_bin _ _ _ _ _ q W'); left; exact Hq|].
         destruct (IHr Wr) as [r' Er]; [intros q Hq; apply T; apply (prior_ids_bin _ _ _ _ _ q W'); right; exact Hq|].
         rewrite El, Er. eexists; reflexivity.
+      - cbn [rebuild]. destruct (IHc W) as [c' Ec]; [intros q Hq; apply T; rewrite prior_ids_un; exact Hq|].
+        rewrite Ec. eexists; reflexivity.
       - rewrite rebuild_model. apply wf_model in W. unfold prior_ids in T. rewrite walk_model in T.
         assert (X : exists a', rebuild_attrs attrs = Some a').
         { induction attrs as [|[k c] a IHa]; [eexists; reflexivity|].
@@ -280,7 +339,7 @@ Section R.
     Proof.
       induction 1 as [|[k [i c]] ms Hc Hms IH]; intros ps E q Hq; [contradiction|].
       unfold walk_members in Hq. simpl in Hq. rewrite map_app in Hq. apply in_app_or in Hq.
-      destruct c as [p|v|?|? ? ? ? ?|? ? ?|?]; simpl in Hc; try discriminate; simpl in E.
+      destruct c as [p|v|?|? ? ? ? ?|? ? ?|? ? ?|?]; simpl in Hc; try discriminate; simpl in E.
       - destruct (sigma p) as [p'|] eqn:Ep; [|discriminate].
         destruct (tuple_priors V sigma ms) as [r|] eqn:Er; [|discriminate].
         destruct Hq as [Hq|Hq].
@@ -292,7 +351,7 @@ Section R.
     Lemma rebuild_defined : forall n, wf n -> forall n', rebuild V sigma n = Some n' ->
       forall q, In q (prior_ids n) -> sigma q <> None.
     Proof.
-      induction n as [p|v|ms _|o ln rn l r IHl IHr|cls ctor attrs IH|attrs IH] using node_ind'; intros W n' E q Hq.
+      induction n as [p|v|ms _|o ln rn l r IHl IHr|uo unm uc IHc|cls ctor attrs IH|attrs IH] using node_ind'; intros W n' E q Hq.
       - simpl in Hq. destruct Hq as [<-|[]]. simpl in E. destruct (sigma p); [discriminate|discriminate].
       - contradiction.
       - destruct W as [Wl _]. cbn [rebuild] in E.
@@ -304,6 +363,8 @@ Section R.
         apply (prior_ids_bin _ _ _ _ _ q W') in Hq. destruct Hq as [Hq|Hq].
         + apply (IHl Wl _ eq_refl q Hq).
         + apply (IHr Wr _ eq_refl q Hq).
+      - cbn [rebuild] in E. destruct (rebuild V sigma uc) as [c'|] eqn:Ec; [|discriminate].
+        rewrite prior_ids_un in Hq. apply (IHc W _ eq_refl q Hq).
       - rewrite rebuild_model in E. destruct (rebuild_attrs attrs) as [a'|] eqn:Ea; [|discriminate].
         apply wf_model in W. unfold prior_ids in Hq. rewrite walk_model in Hq. clear E.
         revert a' Ea. induction attrs as [|[k c] a IHa]; intros a' Ea; [contradiction|].
